@@ -230,41 +230,47 @@ class BaseAuth:
             cache_failed_entries = len(self._cache_failed)
             if cache_failed_entries > 0:
                 logger.debug("Login failed cache investigation start (entries: %d)", cache_failed_entries)
-                self._lock.acquire()
-                cache_failed_cleanup = dict()
-                for digest in self._cache_failed:
-                    (time_ns_cache, login_cache) = self._cache_failed[digest]
-                    age_failed = int((time_ns - time_ns_cache) / 1000 / 1000 / 1000)
-                    if age_failed > self._cache_failed_logins_expiry:
-                        cache_failed_cleanup[digest] = (login_cache, age_failed)
-                cache_failed_cleanup_entries = len(cache_failed_cleanup)
-                logger.debug("Login failed cache cleanup start (entries: %d)", cache_failed_cleanup_entries)
-                if cache_failed_cleanup_entries > 0:
-                    for digest in cache_failed_cleanup:
-                        (login_cache, age_failed) = cache_failed_cleanup[digest]
-                        logger.debug("Login failed cache entry for user+password expired: '%s' (age: %d > %d sec)", login_cache, age_failed, self._cache_failed_logins_expiry)
-                        del self._cache_failed[digest]
-                self._lock.release()
+                with self._lock:
+                    # investigation and cleanup in one critical section (released also on exception)
+                    cache_failed_cleanup = dict()
+                    for digest in self._cache_failed:
+                        (time_ns_cache, login_cache) = self._cache_failed[digest]
+                        age_failed = int((time_ns - time_ns_cache) / 1000 / 1000 / 1000)
+                        if age_failed > self._cache_failed_logins_expiry:
+                            cache_failed_cleanup[digest] = (login_cache, age_failed)
+                    cache_failed_cleanup_entries = len(cache_failed_cleanup)
+                    logger.debug("Login failed cache cleanup start (entries: %d)", cache_failed_cleanup_entries)
+                    if cache_failed_cleanup_entries > 0:
+                        for digest in cache_failed_cleanup:
+                            (login_cache, age_failed) = cache_failed_cleanup[digest]
+                            logger.debug("Login failed cache entry for user+password expired: '%s' (age: %d > %d sec)", login_cache, age_failed, self._cache_failed_logins_expiry)
+                            del self._cache_failed[digest]
                 logger.debug("Login failed cache investigation finished")
             # check for cache failed login
             digest_failed = login + ":" + self._cache_digest(login, password, str(self._cache_failed_logins_salt_ns))
-            if self._cache_failed.get(digest_failed):
+            # single atomic read: another thread may remove the entry at any time
+            entry_failed = self._cache_failed.get(digest_failed)
+            if entry_failed:
                 # login+password found in cache "failed" -> shortcut return
-                (time_ns_cache, login_cache) = self._cache_failed[digest_failed]
+                (time_ns_cache, login_cache) = entry_failed
                 age_failed = int((time_ns - time_ns_cache) / 1000 / 1000 / 1000)
                 logger.debug("Login failed cache entry for user+password found: '%s' (age: %d sec)", login_cache, age_failed)
                 self._sleep_for_constant_exec_time(time_ns_begin)
                 return ("", self._type + " / cached")
-            if self._cache_successful.get(login):
+            # single atomic read: another thread may remove or replace the entry at any time
+            entry_successful = self._cache_successful.get(login)
+            if entry_successful:
                 # login found in cache "successful"
-                (digest_cache, time_ns_cache, user_cache) = self._cache_successful[login]
+                (digest_cache, time_ns_cache, user_cache) = entry_successful
                 digest = self._cache_digest(login, password, str(time_ns_cache))
                 if digest == digest_cache:
                     age_success = int((time_ns - time_ns_cache) / 1000 / 1000 / 1000)
                     if age_success > self._cache_successful_logins_expiry:
                         logger.debug("Login successful cache entry for user+password found but expired: '%s' (age: %d > %d sec)", login, age_success, self._cache_successful_logins_expiry)
-                        # delete expired success from cache
-                        del self._cache_successful[login]
+                        # delete expired success from cache (unless another thread already removed or replaced it)
+                        with self._lock:
+                            if self._cache_successful.get(login) is entry_successful:
+                                del self._cache_successful[login]
                         digest = ""
                     else:
                         logger.debug("Login successful cache entry for user+password found: '%s' (age: %d sec)", login, age_success)
@@ -285,18 +291,16 @@ class BaseAuth:
                         # successful login, but expired, digest must be recalculated
                         digest = self._cache_digest(login, password, str(time_ns))
                     # store successful login in cache
-                    self._lock.acquire()
-                    self._cache_successful[login] = (digest, time_ns, result)
-                    self._lock.release()
+                    with self._lock:
+                        self._cache_successful[login] = (digest, time_ns, result)
+                        failed_cleared = self._cache_failed.pop(digest_failed, None)
                     logger.debug("Login successful cache for user set: '%s'", login)
-                    if self._cache_failed.get(digest_failed):
+                    if failed_cleared:
                         logger.debug("Login failed cache for user cleared: '%s'", login)
-                        del self._cache_failed[digest_failed]
                 else:
                     logger.debug("Login failed for user+password via backend: '%s'", login)
-                    self._lock.acquire()
-                    self._cache_failed[digest_failed] = (time_ns, login)
-                    self._lock.release()
+                    with self._lock:
+                        self._cache_failed[digest_failed] = (time_ns, login)
                     logger.debug("Login failed cache for user set: '%s'", login)
             if result_from_cache is True:
                 if result == "":
